@@ -17,6 +17,7 @@ import (
 
 	"github.com/ClickHouse/ch-go"
 	"github.com/ClickHouse/ch-go/chpool"
+	"github.com/ClickHouse/ch-go/proto"
 	"go.uber.org/zap"
 	"pgregory.net/rapid"
 
@@ -76,6 +77,7 @@ func (sc *simServerConn) respond(s *simnet.Server) {
 	var reqs []req
 	s.WithStream(func(cs *ref.ClientStream) {
 		var pendingQuery *ref.Query
+		insertOpen := false
 		for _, p := range cs.Packets {
 			switch p.Kind {
 			case ref.PPing:
@@ -83,9 +85,17 @@ func (sc *simServerConn) respond(s *simnet.Server) {
 			case ref.PQuery:
 				pendingQuery = p.Query
 			case ref.PData:
-				if pendingQuery != nil && len(p.Block.Columns) == 0 {
+				if len(p.Block.Columns) != 0 {
+					continue
+				}
+				if pendingQuery != nil {
 					reqs = append(reqs, req{id: pendingQuery.ID, body: pendingQuery.Body})
+					insertOpen = pendingQuery.Body == "INS"
 					pendingQuery = nil
+				} else if insertOpen {
+					// end of input of an INSERT
+					reqs = append(reqs, req{body: "INS-END"})
+					insertOpen = false
 				}
 			}
 		}
@@ -106,8 +116,19 @@ func (sc *simServerConn) respond(s *simnet.Server) {
 		switch {
 		case r.ping:
 			sc.conn.Deliver([]byte{ref.ServerPongCode}, nil)
-		case r.body == "OK":
+		case r.body == "OK", r.body == "INS-END":
 			sc.conn.Deliver([]byte{ref.ServerEndOfStreamCode}, nil)
+		case r.body == "INS":
+			// column info for the INSERT (compressed iff the client asked for it)
+			method := byte(0)
+			s.WithStream(func(cs *ref.ClientStream) {
+				if q := cs.LastQuery(); q != nil && q.Compression == 1 {
+					method = ref.MethodLZ4
+				}
+			})
+			e := &ref.Enc{NoMap: true}
+			_ = ref.EncodeDataPacket(e, ref.ServerDataCode, "", 54460, &ref.Block{Columns: []ref.Column{{Name: "v", T: ref.Fixed("UInt64", 8)}}}, method)
+			sc.conn.Deliver(e.B, nil)
 		case r.body == "EXC":
 			e := &ref.Enc{NoMap: true}
 			ref.EncodeExceptionChain(e, []ref.Exception{{Code: 60, Name: "DB::Exception", Message: "no table"}})
@@ -469,11 +490,12 @@ func TestC12PoolRaces(t *testing.T) {
 		workers := rapid.IntRange(2, 8).Draw(rt, "workers")
 		maxConns := rapid.IntRange(1, 4).Draw(rt, "max-conns")
 		iters := rapid.IntRange(1, 6).Draw(rt, "iterations")
-		kinds := rapid.SliceOfN(rapid.SampledFrom([]string{"OK", "OK", "EXC", "CUT", "EXCCUT", "PING", "HOLD"}), 16, 16).Draw(rt, "kinds")
+		kinds := rapid.SliceOfN(rapid.SampledFrom([]string{"OK", "OK", "EXC", "CUT", "EXCCUT", "PING", "HOLD", "INS", "INS", "INS"}), 16, 16).Draw(rt, "kinds")
+		comp := rapid.SampledFrom([]ch.Compression{ch.CompressionDisabled, ch.CompressionLZ4, ch.CompressionLZ4, ch.CompressionZSTD, ch.CompressionLZ4HC}).Draw(rt, "compression")
 		rapid.SyncTest(rt, func(rt *rapid.T) {
 			f := &farm{}
 			p, err := chpool.New(context.Background(), chpool.Options{
-				ClientOptions:   ch.Options{Dialer: f, Logger: zap.NewNop(), ReadTimeout: 50 * time.Millisecond},
+				ClientOptions:   ch.Options{Dialer: f, Logger: zap.NewNop(), ReadTimeout: 50 * time.Millisecond, Compression: comp},
 				MaxConnLifetime: 20 * time.Millisecond, MaxConnIdleTime: 5 * time.Millisecond, HealthCheckPeriod: time.Millisecond,
 				MaxConns: int32(maxConns), MinConns: 1,
 			})
@@ -490,6 +512,12 @@ func TestC12PoolRaces(t *testing.T) {
 						switch k := kinds[(w*7+i)%len(kinds)]; k {
 						case "PING":
 							_ = p.Ping(ctx)
+						case "INS":
+							var col proto.ColUInt64
+							for j := 0; j < 300; j++ {
+								col.Append(uint64(w*1000 + j%7))
+							}
+							_ = p.Do(ctx, ch.Query{Body: "INS", Input: proto.Input{{Name: "v", Data: &col}}})
 						case "HOLD":
 							if c, err := p.Acquire(ctx); err == nil {
 								_ = c.Ping(ctx)
